@@ -18,7 +18,7 @@ SKIP = 'tmp_create,idx_rec,idx_keep,idx_done,files,on_start,lookup,fetched,verif
 
 
 def parse_csv(data, header):
-    lines = data.decode().splitlines()
+    lines = data.decode('utf-8', 'replace').splitlines()
     probs = []
     if not lines or lines[0] != header:
         probs.append('header row is %r' % (lines[:1],))
@@ -53,7 +53,10 @@ def aggregate(unspent_rows):
     bal = {}
     for row in unspent_rows:
         f = row.split(';')
-        bal[f[4]] = bal.get(f[4], 0) + int(f[3])
+        try:
+            bal[f[4]] = bal.get(f[4], 0) + int(f[3])
+        except (IndexError, ValueError):
+            bal['<malformed row %r>' % row[:60]] = -1        # shows up as a difference, never as a crash of the check
     return {'%s;%d' % (a, s) for a, s in bal.items()}
 
 
